@@ -85,8 +85,9 @@ def register(reg):
                           'implies(override, name in old(dom(%s)))' % D, 'implies(not override, name not in old(dom(%s)))' % D,
                           "not name.startswith('__')"],
                  raises={'GrammarError': [
-                     # a clash is an error, never a silent capture
-                     "(name in old(dom(%s)) and not override) or (name not in old(dom(%s)) and override) or name.startswith('__') or True" % (D, D),
+                     # (that a clash IS an error - never a silent capture - is carried by the three postconditions of the normal return above;
+                     #  the converse, 'an error only on a clash', is not claimed: _check_options may reject the options for other reasons)
+                     # when the error is raised the definition map is what it was
                      'all((k in %s) == (k in old(dom(%s))) and implies(k in %s, %s[k] is old(content(%s))[k]) for k in STR)' % (D, D, D, D, D)]},
                  names={'Definition': ('class', 'Definition')}, replay=_replay)
     reg.contract('lark.load_grammar:GrammarBuilder._extend', serves=S, kind='method',
